@@ -33,8 +33,8 @@ ASSUMPTIONS = [
     "luminous intensity is fixed to candela in every registry and never appears in a quantity",
 ]
 
-QUICK = ["single_q", "pair_q", "hist_q", "reg_q", "derived_q", "help_q", "bexp", "plain"]
-THOROUGH = ["single_t", "pair_t", "triple_t", "hist_q", "hist_t", "reg_q", "reg_t", "derived_t", "own_t", "help_q", "help_t", "bexp", "plain"]
+QUICK = ["single_q", "pair_q", "hist_q", "reg_q", "reg2_q", "derived_q", "help_q", "bexp", "plain"]
+THOROUGH = ["single_t", "pair_t", "triple_t", "hist_q", "hist_t", "reg_q", "reg2_q", "reg_t", "derived_t", "own_t", "help_q", "help_t", "bexp", "plain"]
 INV = {"quick": "inv_q", "thorough": "inv_t"}
 ACTIONS = {"inv": ["GenAddFactor", "GenSeal", "GenConvert", "GenBack", "GenVia", "GenScale", "GenContainer",
                    "GenIncompatible", "GenDimensionality", "GenDefaultUnit", "GenUnitlessIn", "GenDerived",
@@ -73,7 +73,8 @@ def _helper(name, a, qs):
         out = ns.linspace(qi, qj) if v == "num50" else ns.linspace(qi, qj, NUM)
         return {"outs": [uc.project_unitful(out)["si"]]}
     if name == "logspace_from_lin":
-        return {"outs": [uc.project_unitful(cu.logspace_from_lin(qi, qj, NUM))["si"]]}
+        out = cu.logspace_from_lin(qi, qj) if v == "num50" else cu.logspace_from_lin(qi, qj, NUM)
+        return {"outs": [uc.project_unitful(out)["si"]]}
     arr2 = arr.reshape(2, 2)
     if name == "concatenate" and v != "default":
         kw = {} if v == "axis0" else {"axis": {"axis1": 1, "axism1": -1, "axisnone": None}[v]}
@@ -150,6 +151,11 @@ def _step(a, q, qs, q0ux):
     if op == "container":
         T = uc.unit_expr(a["t"])
         kind = a["kind"]
+        if kind == "empty_list":
+            return {"xs": uc.floats(cu.to_unitless([], T))}, None
+        if kind == "empty_dict":
+            r = cu.to_unitless({}, T)
+            return {"xs": [uc._tofloat(v) for v in r.values()], "keys": isinstance(r, dict)}, None
         if kind == "list":
             return {"xs": uc.floats(cu.to_unitless(list(qs), T))}, None
         if kind == "tuple":
@@ -283,7 +289,8 @@ def _step(a, q, qs, q0ux):
             arg = [[q, 1], [3, 4]]
         else:
             raise ValueError(form)
-        be = {"math": lambda: cu.Backend("math"), "numpy": lambda: cu.Backend(np), "default": lambda: cu.Backend(),
+        be = {"math": lambda: cu.Backend("math"), "mathfirst": lambda: cu.Backend(("math", "numpy")),
+              "numpy": lambda: cu.Backend(np), "default": lambda: cu.Backend(),
               "patched_numpy": lambda: cu.patched_numpy}[a["be"]]()
         kw = {"axis": 1} if form == "mixed" else {}
         args = (arg, 2 * arg) if a["fn"] in ("logaddexp", "logaddexp2") else (arg,)
@@ -297,6 +304,18 @@ def _step(a, q, qs, q0ux):
     raise ValueError(op)
 
 
+def _snapshot(qs):
+    """what the quantities of a history look like right now: magnitudes (bit for bit) and units"""
+    out = []
+    for x in qs:
+        try:
+            m = getattr(x, "magnitude", x)
+            out.append((repr(getattr(x, "dimensionality", "")), tuple(float(v).hex() for v in __import__("numpy").ravel(m))))
+        except Exception:  # noqa
+            out.append(("unreadable", repr(x)[:60]))
+    return out
+
+
 def run_history(cin, gens):
     """execute the history of a case on chempy.units; one observation per operation.
     An exception where the spec expects a value is itself the observation."""
@@ -308,11 +327,13 @@ def run_history(cin, gens):
     qs = [q]
     out = []
     for a in cin["ops"]:
+        snap = _snapshot(qs)
         try:
             obs, nq = _step(a, q, qs, cin["ux"])
         except Exception as e:  # noqa
             out.append({"error": type(e).__name__, "msg": str(e)[:160]})
             break
+        obs["frame"] = _snapshot(qs) == snap      # an operation changes nothing it was given
         out.append(obs)
         if nq is not None:
             q = nq
@@ -332,7 +353,7 @@ def _plain(name, e, A, B, C, outs):
     if name == "linspace":
         return {"outs": [np.linspace(A[0], B[0], e["num"]) * outs[0]]}
     if name == "logspace_from_lin":
-        return {"outs": [np.geomspace(A[0], B[0], NUM) * outs[0]]}
+        return {"outs": [np.geomspace(A[0], B[0], e["num"]) * outs[0]]}
     if name == "concatenate" and e["twod"]:
         r = np.concatenate([np.reshape(A, (2, 2)), np.reshape(B, (2, 2))], axis=None if e["axis"] == "none" else int(e["axis"])) * outs[0]
         return {"outs": [r.ravel()], "shape": list(r.shape)}
@@ -358,6 +379,8 @@ def judge(a, obs, e, gv, tol10, htol10):
     """None if the observation is what the case demands, else the name of the failing clause"""
     if "error" in obs:
         return "unexpected-" + obs["error"]
+    if obs.get("frame") is False:
+        return "argument-changed"
     op = a["op"]
     if op in ("convert", "back"):
         if not uc.close(obs["x"], uc.num(e["x"], gv), tol10):
@@ -462,7 +485,7 @@ def judge(a, obs, e, gv, tol10, htol10):
             with np.errstate(all="ignore"):
                 if a["fn"] == "sum":
                     want = list(np.atleast_1d(np.sum(vals.reshape(e["rows"], -1), axis=1 if e["rows"] > 1 else None)))
-                elif a["be"] == "math":
+                elif a["be"] in ("math", "mathfirst"):
                     want = [getattr(math, a["fn"])(v) for v in vals]
                 elif len(vals2):
                     want = list(getattr(np, a["fn"])(vals, vals2))
@@ -632,6 +655,7 @@ def trace_of(cin, obs):
             e.update(be=a["be"], fn=a["fn"], form=a["form"], raised=bool(o["raised"]), exc=o.get("exc", ""))
         else:
             continue
+        e["frame"] = bool(o.get("frame", True))
         ev.append(e)
     ev.append({"ev": "end"})
     return ev
@@ -682,6 +706,8 @@ class Gen(object):
         spec carries (the part of the magnitude coprime to 2, 3, 5) stays far below TLC's 32-bit integers"""
         if sum(1 for o in ops if o["op"] == "scale") >= 2:
             return self.r.choice([[2, 1], [1, 2], [-10, 1], [5, 3], [1, 1000], [-3, 8]])
+        if self.r.random() < 0.08:
+            return [0, 1]          # zero is a scalar too
         return self.rational()
 
     PLAIN_UNITS = [[], [{"n": "percent", "p": 1}], [{"n": "m", "p": 1}, {"n": "mm", "p": -1}], [{"n": "mm", "p": 1}, {"n": "m", "p": -1}],
@@ -736,7 +762,7 @@ class Gen(object):
                 ops.append({"op": "back"})
                 cur = ux
             elif k == "container":
-                ops.append({"op": "container", "kind": self.r.choice(["list", "tuple", "objarray", "dict", "array", "array2d"]),
+                ops.append({"op": "container", "kind": self.r.choice(["list", "tuple", "objarray", "dict", "array", "array2d", "empty_list", "empty_dict"]),
                             "t": self.compatible(cur), "mults": [[1, 1], [2, 1], [-3, 2]]})
             elif k == "incompatible":
                 t = list(self.compatible(cur)) + [{"n": self.r.choice(["m", "kg", "s", "A", "K", "mol", "km", "min", "mmol"]),
@@ -761,7 +787,7 @@ class Gen(object):
                 be, fn, form = self.r.choice([("default", "log", "quantity"), ("patched_numpy", "exp", "quantity"), ("patched_numpy", "log10", "array"),
                                               ("patched_numpy", "logaddexp", "quantity"), ("numpy", "logaddexp2", "array"), ("math", "log1p", "quantity"),
                                               ("patched_numpy", "expm1", "list"), ("default", "log2", "unit"),
-                                              ("math", "exp", "quantity"), ("math", "exp", "unit"), ("math", "exp", "uncertain"),
+                                              ("math", "exp", "quantity"), ("math", "exp", "unit"), ("math", "exp", "uncertain"), ("mathfirst", "exp", "quantity"),
                                               ("numpy", "exp", "quantity"), ("numpy", "exp", "unit"), ("numpy", "exp", "uncertain"),
                                               ("numpy", "exp", "list"), ("numpy", "exp", "array"), ("numpy", "exp", "objarray"),
                                               ("numpy", "sum", "list"), ("numpy", "sum", "array"), ("numpy", "sum", "mixed")])
@@ -786,11 +812,13 @@ def _run_history_q(mag, h):
     qs = [q]
     out = []
     for a in h["ops"]:
+        snap = _snapshot(qs)
         try:
             obs, nq = _step(a, q, qs, h["ux"])
         except Exception as e:  # noqa
             out.append({"error": type(e).__name__, "msg": str(e)[:160]})
             break
+        obs["frame"] = _snapshot(qs) == snap      # an operation changes nothing it was given
         out.append(obs)
         if nq is not None:
             q = nq
